@@ -839,7 +839,8 @@ class PDFPageInterpreter:
             n = 1
 
         if n == 1:
-            gray = self.pop(1)[0]
+            operands = self.pop(1)
+            gray = operands[0] if operands else None
             gray_f = safe_float(gray)
             if gray_f is None:
                 log.warning(
@@ -850,7 +851,7 @@ class PDFPageInterpreter:
 
         elif n == 3:
             values = self.pop(3)
-            rgb = safe_rgb(*values)
+            rgb = safe_rgb(*values) if len(values) == 3 else None
             if rgb is None:
                 log.warning(
                     f"Cannot set RGB stroke color because not all values in {values!r} can be parsed as floats"
@@ -860,7 +861,7 @@ class PDFPageInterpreter:
 
         elif n == 4:
             values = self.pop(4)
-            cmyk = safe_cmyk(*values)
+            cmyk = safe_cmyk(*values) if len(values) == 4 else None
 
             if cmyk is None:
                 log.warning(
@@ -884,7 +885,8 @@ class PDFPageInterpreter:
             n = 1
 
         if n == 1:
-            gray = self.pop(1)[0]
+            operands = self.pop(1)
+            gray = operands[0] if operands else None
             gray_f = safe_float(gray)
             if gray_f is None:
                 log.warning(
@@ -895,7 +897,7 @@ class PDFPageInterpreter:
 
         elif n == 3:
             values = self.pop(3)
-            rgb = safe_rgb(*values)
+            rgb = safe_rgb(*values) if len(values) == 3 else None
 
             if rgb is None:
                 log.warning(
@@ -906,7 +908,7 @@ class PDFPageInterpreter:
 
         elif n == 4:
             values = self.pop(4)
-            cmyk = safe_cmyk(*values)
+            cmyk = safe_cmyk(*values) if len(values) == 4 else None
 
             if cmyk is None:
                 log.warning(
